@@ -87,6 +87,22 @@ def defaultsOf : List Field → Option (List (String × Obj))
     | some v, some r => some ((f.name, v) :: r)
     | _, _ => Option.none
 
+/-! ### `Literal[...]` -/
+
+def Obj.isEnumM : Obj → Bool
+  | .enumM _ _ => true
+  | _ => false
+
+/-- `is_literal_containing_enums` -/
+def litHasEnum (vs : List Obj) : Bool := vs.any Obj.isEnumM
+
+/-- the values of `Literal[vs]`.  A literal containing enum members: exactly its arguments (the member itself, the
+plain value itself -- `_structure_enum_literal` hands out the literal's own argument).  A literal of plain values:
+whatever is `in` the arguments (`_structure_simple_literal` tests `val in args` and returns `val`: `True` for
+`Literal[1]`). -/
+def litConf (vs : List Obj) (x : Obj) : Bool :=
+  if litHasEnum vs then vs.contains x else Obj.memPy x vs
+
 /-! ### conformance: "x is a value of T at every depth" -/
 
 mutual
@@ -98,7 +114,7 @@ def conf (w : World) : Ty → Obj → Bool
   | .bytes, .bytes _ => true
   | .bool, .bool _ => true
   | .enum e, .enumM e' m => e == e' && decide (m < (w.members e).length)
-  | .lit vs, x => Obj.memPy x vs
+  | .lit vs, x => litConf vs x
   | .coll k t, .coll ck xs =>
       ck == k.structTo && confL w t xs && (!ck.isSet || (nodupPy xs && hashableL w xs))
   | .tupleHet ts, .coll .tuple xs => confT w ts xs
